@@ -2,11 +2,14 @@
    STRUCTURAL HALF, proved on the Weights/Combiner model (tied by tools/corr/wlayer.py on the real Combiner): every
    asymptotic kernel of a heavy quark is built with the parton weights, the nf and the heavy-quark mass of its massive
    counterpart — for any couplings, any nf, any heavy quark, any perturbative order.
-   ANALYTIC HALF (the asymptotic coefficient function is the limit of the massive one): see the generated obligations
-   named in tools/props/C08.py; the massive NC coefficients live in LeProHQ (third party, not modelled) and are compared
-   on real runs only. *)
-From Coq Require Import ZArith List Bool String.
-From Yad Require Import Base Couplings Weights Combiner FFN0Theorems.
+   ANALYTIC HALF (the asymptotic coefficient function is the limit of the massive one): proved below for the NLO gluon
+   channel of charged-current F2, FL, F3 on the closures regenerated from the source (tools/pyinst.py), with the explicit
+   remainder (1 - lambda)(A(z) + B |ln(1 - lambda)|), 1 - lambda = m2/(Q2 + m2).  NOT proved: the quark channels (plus
+   distributions with a lambda-dependent singular part) and everything neutral-current (LeProHQ, third party): those are
+   compared on real runs only. *)
+From Coq Require Import Reals ZArith List Bool String.
+From Yad Require Import Base Couplings Weights Combiner FFN0Theorems Expr GluonLimit.
+From YadGen Require Import InstKernels.
 Import ListNotations.
 
 Theorem C08_heavy_pairing_cc (fld : Fld) gw prc rest inv k nf pto ihq ks ks' : prc = CC ->
@@ -30,3 +33,22 @@ Theorem C08_missing_pairing (fld : Fld) gw prc inv k nf pto ihq ks ks' :
   forall x, In x ks' -> exists y, In y ks /\ wsig x = wsig y.
 Proof. exact (@missing_pairing fld gw prc inv k nf pto ihq ks ks'). Qed.
 Print Assumptions C08_missing_pairing.
+
+(* ---- analytic half, CC gluon channel at NLO.  args[0] of the massive kernel is lambda = 1/(1 + m2/Q2), args[0] of the
+   asymptotic one is L = ln(Q2/m2) = ln(lambda/(1 - lambda)); z in (0,1), lambda in [1/2, 1) i.e. Q2 >= m2 *)
+Open Scope R_scope.
+Theorem C08_gluon_F2_limit sp z l : 0 < z < 1 -> 1 / 2 <= l < 1 ->
+  Rabs (eval sp ik_heavy_f2_cc_Gluon_NLO_reg z [l] - eval sp ik_asy_f2_cc_AsyGluon_NLO_reg z [ln (l / (1 - l))])
+  <= 2 * (1 - l) * (8 + / (1 - z) + 12 * (- ln (1 - z) - ln z) + 12 * (- ln (1 - l))).
+Proof. exact (gluon_f2_limit sp z l). Qed.
+Print Assumptions C08_gluon_F2_limit.
+Theorem C08_gluon_FL_limit sp z l : 0 < z < 1 -> 1 / 2 <= l < 1 ->
+  Rabs (eval sp ik_heavy_fl_cc_Gluon_NLO_reg z [l] - eval sp ik_asy_fl_cc_AsyGluon_NLO_reg z [ln (l / (1 - l))])
+  <= 2 * (1 - l) * (3 + 9 * (- ln (1 - z) - ln z) + 9 * (- ln (1 - l))).
+Proof. exact (gluon_fl_limit sp z l). Qed.
+Print Assumptions C08_gluon_FL_limit.
+Theorem C08_gluon_F3_limit sp z l : 0 < z < 1 -> 1 / 2 <= l < 1 ->
+  Rabs (eval sp ik_heavy_f3_cc_Gluon_NLO_reg z [l] - eval sp ik_asy_f3_cc_AsyGluon_NLO_reg z [ln (l / (1 - l))])
+  <= (1 - l) * (2 * / (1 - z) + 2 + 4 * (- ln (1 - z) - ln z) + 5 * (- ln (1 - l))).
+Proof. exact (gluon_f3_limit sp z l). Qed.
+Print Assumptions C08_gluon_F3_limit.
